@@ -63,6 +63,66 @@ def gsrfs_calls(r):
     return calls
 
 
+def ferr_estimator_steps(c, r, p):
+    """inside ?gsrfs the forward-error estimate multiplies the estimator's request x by  diag(W) inv(op(A))^H diag(S)  (KASE = 1) or by
+    diag(S) inv(op(A)) diag(W)  (KASE = 2), S = C for (NOTRANS, column scaling), R for (transposed, row scaling), else 1, W >= 0 the
+    componentwise weights.  Logged per step: request, the vector handed to ?gstrs, what ?gstrs returned, the reply.  Checked, all
+    precisions: KASE = 1: solver input = S .* request;  KASE = 2: reply = S .* solver output, solver input = W .* request with the SAME
+    real non-negative W that KASE = 1 steps of this right-hand side used (reply = W .* solver output)."""
+    cx = ll.is_cx(p); u = float(ll.U_ROUND[p]); n = c["n"]
+    vec = (lambda fl: [complex(fl[2 * i], fl[2 * i + 1]) for i in range(len(fl) // 2)]) if cx else (lambda fl: list(fl))
+    fails, nchk = [], 0
+    cur = None; req = None; sin = None; sout = None; W = {}
+    tol = 16 * u
+    eta = 8 * (2.0 ** -126 if p in "sc" else 2.0 ** -1022)         # results in the subnormal range carry an absolute error
+    def close(a, b):
+        return abs(a - b) <= tol * max(abs(a), abs(b)) + eta or (a != a and b != b)
+    for e in r["ev"]:
+        if e[0] == "gsrfs_in":
+            cur = {"trans": e[1], "equed": e[2]}; W = {}
+        elif cur is None:
+            continue
+        elif e[0] == "gsrfs_out":
+            cur = None
+        elif e[0] == "fe_out":
+            req = (e[1], vec(e[2])) if e[1] != 0 else None; sin = sout = None
+            if e[1] == 0: W = {}
+        elif e[0] == "fs_in" and req is not None:
+            sin = vec(e[2])
+        elif e[0] == "fs_out" and req is not None:
+            sout = vec(e[2])
+        elif e[0] == "fe_in" and req is not None and sin is not None and sout is not None:
+            kase, x = req; y = vec(e[2]); req = None
+            if not (len(x) == len(y) == len(sin) == len(sout) == n):
+                continue
+            notran = cur["trans"] == 0
+            colequ = cur["equed"] in (2, 3); rowequ = cur["equed"] in (1, 3)
+            S = r.get("C") if (notran and colequ) else (r.get("R") if ((not notran) and rowequ) else None)
+            S = S if (S and len(S) >= n) else [1.0] * n
+            nchk += 1
+            bad = None
+            if kase == 1:
+                for i in range(n):
+                    if not close(sin[i], x[i] * S[i]):
+                        bad = "KASE = 1: the vector handed to ?gstrs is not diag(%s) times the request (entry %d: %r vs %r)" % ("C" if notran else "R", i, sin[i], x[i] * S[i]); break
+                    if abs(sout[i]) > 1e6 * eta and abs(y[i]) > 1e6 * eta:
+                        w = y[i] / sout[i]
+                        w = w.real if cx else w
+                        if i in W and not close(W[i], w) and abs(W[i] - w) > tol:
+                            bad = "KASE = 1: weight of entry %d differs from the one used before (%r vs %r)" % (i, w, W[i]); break
+                        W.setdefault(i, w)
+            else:
+                for i in range(n):
+                    if not close(y[i], sout[i] * S[i]):
+                        bad = "KASE = 2: the reply is not diag(%s) times what ?gstrs returned (entry %d: %r vs %r)" % ("C" if (notran and colequ) else ("R" if ((not notran) and rowequ) else "1"), i, y[i], sout[i] * S[i]); break
+                    if i in W and abs(x[i]) > 1e6 * eta and abs(sin[i]) > 1e6 * eta and not close(sin[i], x[i] * W[i]) and abs(sin[i] - x[i] * W[i]) > 4 * tol * abs(sin[i]):
+                        bad = "KASE = 2: the vector handed to ?gstrs is not diag(W) times the request (entry %d: %r vs %r, W from the KASE = 1 step)" % (i, sin[i], x[i] * W[i]); break
+            if bad:
+                fails.append(("ferr-estimator-step", "forward-error estimate inside ?gsrfs (trans %d, equed %d): %s" % (cur["trans"], cur["equed"], bad)))
+                break
+    return fails, nchk
+
+
 def colsplit(v, n, nrhs, nv=1):
     return [v[k * n * nv:(k + 1) * n * nv] for k in range(nrhs)]
 
@@ -378,6 +438,11 @@ def eval_batch(ctx, p, exe, cases, tag, ienv=None):
             ctx.corr("real CONJ calls (oracle skipped: finding F3 / C07)")
         else:
             fails, st = oracle(c, r, p, call)
+            if ci == 0:
+                f2, nst = ferr_estimator_steps(c, r, p)
+                fails = fails + f2
+                if nst:
+                    ctx.corr("forward-error estimator steps inside ?gsrfs checked (%s)" % p, nst)
             if not call["direct"] and not fails and c.get("mode", "ssvx") == "ssvx":
                 dfl = driver_oracle(c, r, p)
                 if dfl:
